@@ -85,6 +85,20 @@ func VerifReport() {
 			newReqs = append(newReqs, req(nm, "^1.0.0"))
 		}
 	}
+	// a second requirement of package "a" under an alias (npm: keyed on KnownAs): same package,
+	// same old and new range as "a" when both change, told apart only by its dependency type
+	aliasChanged := false
+	{
+		oldAlias, newAlias := req("a", "^1.0.0"), req("a", "^1.0.0")
+		oldAlias.Type.AddAttr(dep.KnownAs, "a-alias")
+		newAlias.Type.AddAttr(dep.KnownAs, "a-alias")
+		if verifrt.Choice("alias-changed", 2) == 1 {
+			newAlias.Version = "^2.0.0"
+			aliasChanged = true
+		}
+		oldReqs = append(oldReqs, oldAlias)
+		newReqs = append(newReqs, newAlias)
+	}
 	oldRes, newRes := analysis(oldReqs, before), analysis(newReqs, after)
 	// the analyses also carry the vulnerabilities that the depth / severity / dev filters left out;
 	// one such vulnerability (with an arbitrary ID, possibly one the patch brings into view) may
@@ -140,11 +154,22 @@ func VerifReport() {
 	verifrt.Assert(strings.Join(got, ",") == strings.Join(want, ","), "the vulnerabilities before the patch, minus the fixed ones, plus the introduced ones, are exactly the vulnerabilities after it")
 	verifrt.Assert(sort.StringsAreSorted(fixed) && sort.StringsAreSorted(introduced), "the report lists vulnerabilities in a fixed order")
 	// requirement changes: exactly the requirements that differ
-	verifrt.Assert(len(patch.PackageUpdates) == len(changed), "the report lists exactly the requirements that changed")
+	nChanged := len(changed)
+	if aliasChanged {
+		nChanged++
+	}
+	verifrt.Assert(len(patch.PackageUpdates) == nChanged, "the report lists exactly the requirements that changed")
+	aliasListed := false
 	for _, u := range patch.PackageUpdates {
+		if as, _ := u.Type.GetAttr(dep.KnownAs); as == "a-alias" {
+			verifrt.Assert(aliasChanged && !aliasListed && u.Name == "a" && u.VersionFrom == "^1.0.0" && u.VersionTo == "^2.0.0", "each listed requirement change names a changed requirement with its old and new version")
+			aliasListed = true
+			continue
+		}
 		verifrt.Assert(changed[u.Name] && u.VersionFrom == "^1.0.0" && u.VersionTo == "^2.0.0", "each listed requirement change names a changed requirement with its old and new version")
 	}
-	if len(changed) == 0 {
+	verifrt.Assert(aliasListed == aliasChanged, "a changed aliased requirement of a package is listed beside the package's plain requirement")
+	if nChanged == 0 {
 		verifrt.Reach("no-requirement-changed")
 	}
 }
